@@ -91,6 +91,7 @@ struct Reg {
     s.points = [](int tier) {
       std::vector<Pt> pts = grid({0, 1, 2, 3}, 2, GENERIC_VALS);
       if (tier) { std::vector<Pt> q; for (size_t i = 0; i < pts.size(); i += 5) q.push_back(pts[i]); pts = q; }  // 4-point sub-lattice for d=2
+      pts.push_back(far_point());
       pts.push_back(Pt(0, 0, 0, 0, true));
       return pts;
     };
